@@ -357,6 +357,42 @@ fn judge_point_in(dir: &std::path::Path, store: &Store, p: &MPoint, info: &mut C
     verdict
 }
 
+
+/// Stored-point files in which the record of the second object starts at every offset within 16
+/// bytes of a power-of-two file offset (4 KiB .. 64 KiB): readers that go through a buffered file
+/// see short reads exactly there, slices never do.
+fn boundary_points() -> Vec<MPoint> {
+    let header = MHeader { uri: "rsync://b.example.net/repo/ca/".into(), notify: Some("https://b.example.net/rrdp/notification.xml".into()), success: true, secs: 1_759_335_022 };
+    let manifest = MManifest {
+        not_after: MTime { secs: 1_790_000_000, nanos: 0 },
+        number: Hex({ let mut n = vec![0u8; 20]; n[19] = 7; n }),
+        this_update: MTime { secs: 1_759_000_000, nanos: 0 },
+        ca_repository: "rsync://b.example.net/repo/ca/".into(),
+        manifest: MBytes { len: 300, seed: 3, head: Hex(vec![]) },
+        crl_uri: "rsync://b.example.net/repo/ca/ca.crl".into(),
+        crl: MBytes { len: 200, seed: 5, head: Hex(vec![]) },
+    };
+    let obj = |n: u32, len: u32, hash: bool| MObject { uri: format!("rsync://b.example.net/repo/ca/o{}.roa", n), hash: if hash { Some(Hex(vec![n as u8; 32])) } else { None }, content: MBytes { len, seed: n as u8, head: Hex(vec![]) } };
+    // offset of the second object's record when the first object is empty
+    let mut f = enc_header(&header).data;
+    manifest.to_real().write(&mut f).unwrap();
+    obj(1, 0, true).to_real().write(&mut f).unwrap();
+    let s0 = f.len() as i64;
+    let mut res = Vec::new();
+    for b in [4096i64, 8192, 16384, 32768, 65536] {
+        for d in -16i64..=16 {
+            let len = b + d - s0;
+            if len < 0 {
+                continue;
+            }
+            for via_update in [false, true] {
+                res.push(MPoint { header: header.clone(), manifest: manifest.clone(), objects: vec![obj(1, len as u32, true), obj(2, 40, false), obj(3, 5000, true), obj(4, 1, false)], via_update });
+            }
+        }
+    }
+    res
+}
+
 //------------ byte level: decode -> encode -> decode fix-point -----------------------------------
 
 /// For every record type whose decoder accepts a prefix of `data`: the decoded value must survive
@@ -516,7 +552,7 @@ fn preamble() -> Result<(), String> {
 }
 
 pub fn run(ctx: &Ctx, rep: &mut Report, replay: Option<&serde_json::Value>) {
-    rep.rule("sequences of 1..=4 records (stored point header incl. one from the public constructor, stored manifest, stored object, store status, RRDP repository state) over rsync/https URIs from rpki's grammar (any-case scheme, all legal punctuation, up to 300 segments), times over chrono's whole range with and without sub-second part, serials up to 2^159-1, optional fields, ETags (strong, weak, empty, arbitrary bytes), delta maps of 0..500 entries (and, less often, up to 3000: the count is bounded only by the configurable rrdp-max-delta-list-len), contents of 0..70000 bytes; written into one buffer and read back in sequence; plus stored-point files written by the writers or through StoredPoint::update (real Store) and read by load_quietly; plus mutated valid encodings for the decode-encode-decode fix-point; non-trivial = at least one optional field present and one absent, or a delta map with >= 2 entries (files: >= 2 objects with mixed hash presence or a notify URI; bytes: some decoder accepted the input); distinct by serialised case");
+    rep.rule("sequences of 1..=4 records (stored point header incl. one from the public constructor, stored manifest, stored object, store status, RRDP repository state) over rsync/https URIs from rpki's grammar (any-case scheme, all legal punctuation, up to 300 segments), times over chrono's whole range with and without sub-second part, serials up to 2^159-1, optional fields, ETags (strong, weak, empty, arbitrary bytes), delta maps of 0..500 entries (and, less often, up to 3000: the count is bounded only by the configurable rrdp-max-delta-list-len), contents of 0..70000 bytes; written into one buffer and read back in sequence; plus stored-point files written by the writers or through StoredPoint::update (real Store) and read by load_quietly, including 330 enumerated files in which the second object's record starts within 16 bytes of file offset 4/8/16/32/64 KiB (buffered-reader boundaries); plus mutated valid encodings for the decode-encode-decode fix-point; non-trivial = at least one optional field present and one absent, or a delta map with >= 2 entries (files: >= 2 objects with mixed hash presence or a notify URI; bytes: some decoder accepted the input); distinct by serialised case");
     rep.assume("Time values are compared at the whole second the format stores by design (DESIGN §3); sub-second loss is counted as class subsecond_part_dropped_by_format, never as a failure");
     rep.assume("manifest hashes of stored objects are 32 bytes (objects are stored only after their SHA-256 manifest hash was verified); headers with an arbitrary update status are obtained by decoding the harness' reference encoding because the status type is private");
     if let Err(e) = preamble() {
@@ -538,7 +574,7 @@ pub fn run(ctx: &Ctx, rep: &mut Report, replay: Option<&serde_json::Value>) {
         let t: Tagged<serde_json::Value> = serde_json::from_value(v.clone()).expect("replay");
         match t.sub.as_str() {
             "sequence" | "big" => run_case(ctx, rep, &t.sub, &serde_json::from_value::<Vec<AnyRec>>(t.case).expect("case"), |c, i| judge_sequence(c, i)),
-            "point" => run_case(ctx, rep, "point", &serde_json::from_value::<MPoint>(t.case).expect("case"), point),
+            "point" | "point-boundary" => run_case(ctx, rep, &t.sub, &serde_json::from_value::<MPoint>(t.case).expect("case"), point),
             "bytes" => run_case(ctx, rep, &t.sub, &serde_json::from_value::<Hex>(t.case).expect("case"), |d, i| judge_bytes(&d.0, i)),
             other if other.starts_with("fuzz:") || other.starts_with("corpus:") => run_case(ctx, rep, other, &serde_json::from_value::<Hex>(t.case).expect("case"), |d, i| judge_bytes(&d.0, i)),
             other => panic!("unknown sub {}", other),
@@ -553,6 +589,12 @@ pub fn run(ctx: &Ctx, rep: &mut Report, replay: Option<&serde_json::Value>) {
     run_prop(ctx, rep, "big", ctx.tier.pick(300, 6_000), prop::collection::vec(anyrec_strategy(70_000), 1..=3), |c, i| judge_sequence(c, i));
     let point_strategy = (header_strategy(), manifest_strategy(3_000), prop::collection::vec(object_strategy(3_000), 0..6), any::<bool>()).prop_map(|(header, manifest, objects, via_update)| MPoint { header, manifest, objects, via_update });
     run_prop(ctx, rep, "point", ctx.tier.pick(5_000, 60_000), point_strategy, point);
+    for p in boundary_points() {
+        if rep.violated() {
+            break;
+        }
+        run_case(ctx, rep, "point-boundary", &p, point);
+    }
     run_prop(ctx, rep, "bytes", ctx.tier.pick(20_000, 300_000), mutated_valid_strategy(), |d, i| judge_bytes(&d.0, i));
     crate::fz::replay_corpus(ctx, rep, "rt_records", |d, i| judge_bytes(d, i));
     if ctx.tier == Tier::Thorough {
